@@ -68,6 +68,8 @@ func cmdCheck(w *World, args []string, tier string, verbose bool) int {
 	var outside []string
 	usedContracts := map[string]bool{}
 	var results []*fnResult
+	var inlinedHelpers []string // helpers the contracts do not know: executed in place in their callers (inline.go)
+	_ = inlinedHelpers
 
 	for _, ct := range w.Contracts.Order {
 		// "impl" contracts are checked against the body but not used at call sites (callers see the
@@ -108,6 +110,10 @@ func cmdCheck(w *World, args []string, tier string, verbose bool) int {
 		fn := w.Funcs[ct.Name]
 		if fn == nil {
 			problems = append(problems, fmt.Sprintf("lost-contract/%s: function named in the contract file no longer exists", ct.Name))
+			continue
+		}
+		if groupOnly(ct) && w.inlinedEverywhere(fn) {
+			inlinedHelpers = append(inlinedHelpers, ct.Name)
 			continue
 		}
 		fx := newFnExec(w, fn, ct)
